@@ -11,7 +11,6 @@ inductive Reply
 | arr    (a : Option (List Reply))
 
 def PLUS : UInt8 := 43
-def COLON : UInt8 := 58
 
 def encInt (n : Int) : Bytes :=
   match n with
